@@ -73,6 +73,9 @@ var c11Neutral = []Mutant{
 }
 
 var c12Neutral = []Mutant{
+	{Name: "neutral-matchvuln-single-expression", File: "guidedremediation/internal/remediation/match.go",
+		Old: "	if matchID(v, opts.IgnoreVulns) {\n		return false\n	}\n\n	if !opts.DevDeps && v.DevOnly {\n		return false\n	}\n\n	return matchSeverity(v, opts.MinSeverity) && matchDepth(v, opts.MaxDepth)\n",
+		New: "	if matchID(v, opts.IgnoreVulns) || (v.DevOnly && !opts.DevDeps) {\n		return false\n	}\n	if !matchSeverity(v, opts.MinSeverity) {\n		return false\n	}\n	return matchDepth(v, opts.MaxDepth)\n"},
 	{Name: "neutral-constructpatches-index-loop", File: remedGo,
 		Old: "	for _, v := range oldRes.Vulns {\n		fixedVulns[v.OSV.ID] = &v\n	}\n",
 		New: "	for i := range oldRes.Vulns {\n		v := oldRes.Vulns[i]\n		fixedVulns[v.OSV.ID] = &v\n	}\n"},
